@@ -136,6 +136,9 @@ def build_table(case):
          'volt_decay': np.array(case['decay'], dtype=float) * case['scale'],
          'period': np.array(case['period'], dtype=int)}
     d['volt_amp'] = np.array(case['amp'], dtype=float) if case['amp'] is not None else (d['volt_rise'] + d['volt_decay']) / 2
+    if case.get('period_unit'):
+        # periods converted to another unit by the user (ms, s): ratios of neighbouring periods are unit free
+        d['period'] = d['period'] * {1: 1000.0 / 512, 2: 1.0 / 500, 3: 0.37}[case['period_unit']]
     d['sample_peak' if case['center'] == 'peak' else 'sample_trough'] = np.arange(n) * 10 + 5
     return pd.DataFrame(d)
 
@@ -228,7 +231,8 @@ def strat_synth(draw, tier):
     amp = draw(st.one_of(st.none(), st.lists(st.integers(0, 5).map(float), min_size=n, max_size=n)))
     return {'rise': rise, 'decay': decay, 'period': period, 'amp': amp, 'scale': draw(st.sampled_from([1.0, 0.5, 0.1, 3.0])),
             'center': draw(st.sampled_from(['peak', 'trough'])), 'direction': draw(st.sampled_from(['both', 'both', 'next', 'last'])),
-            'int_cols': draw(st.integers(0, 3)) == 0, 'index': draw(st.sampled_from(['range', 'range', 'offset', 'repeated']))}
+            'int_cols': draw(st.integers(0, 3)) == 0, 'index': draw(st.sampled_from(['range', 'range', 'offset', 'repeated'])),
+            'period_unit': draw(st.sampled_from([0, 0, 0, 1, 2, 3]))}
 
 
 @st.composite
